@@ -426,8 +426,9 @@ def b_copy_(P, s, a, b, c, name):
                     return dict(f=lambda d, s_: d.copy_(s_), ops=[("p", i), ("x", 0)], extra=[("fresh", src_)], klass="requant", inplace=0)
                 if a % 12 == 5 and d.ndim == 2 and d.shape[0] > 1:
                     # a ONE-ROW low-bit source quantized the same way, broadcast along the rows of the destination
-                    src_ = quantize_weight(x[:1].contiguous(), d.qtype, d.axis, d._group_size)
-                    return dict(f=lambda d, s_: d.copy_(s_), ops=[("p", i), ("x", 0)], extra=[("fresh", src_)], klass="requant", inplace=0)
+                    one = cut(quantize_weight, x[:1].contiguous(), d.qtype, d.axis, d._group_size)
+                    if not isinstance(one, Raised):  # (a single row cannot always be grouped like the destination: then the ordinary source is used)
+                        return dict(f=lambda d, s_: d.copy_(s_), ops=[("p", i), ("x", 0)], extra=[("fresh", one)], klass="requant", inplace=0)
                 # (a source quantized the same way is COPIED: codes, scales and zero-points arrive unaltered)
                 return dict(f=lambda d, s_: d.copy_(s_), ops=[("p", i), ("x", 0)], extra=[("fresh" if isq(src_) else "plain", src_)], klass="move" if isq(src_) else "requant", inplace=0)
         i = P.pick(s[0], lambda v: isinstance(v, QBytesTensor) and v.ndim >= 1)
